@@ -253,6 +253,11 @@ def handle (ds : DState) (op : String) (args impl : List String) : Option (DStat
       | _ =>
         if !predAgrees pred impl then
           some ({ ds1 with smodel := { ms1 with lost := some "diverged" } }, .diff tag (predText pred))
+        -- the guard of `apply_sys` / `run_sys` (Proofs/SysHistory.lean), checked on every history of the tie: every handle the
+        -- model hands out wraps an entity object (index ≥ 3), never the root or its two groups
+        else if ms1.lost.isNone && ms1.slots.any (fun (_, h) => match h with | some h => h.obj < 3 | none => false) then
+          some ({ ds1 with smodel := { ms1 with lost := some "diverged" } },
+            .diff tag "the model handed out the root or one of its two groups as an entity handle (Op.entityArgs)")
         else if (op == "dump" || op == "dumpx") && ms1.lost.isNone then
           match Dump.parse impl with
           | some d =>
